@@ -52,7 +52,7 @@ MODELS = {
         "module": "mc/MC_Remap.tla", "spec": "MCSpec",
         # thorough: a fifth name with one-record converters (two records x five names x every partial map did not finish in
         # 50 minutes); the two-record / four-name instance is part of every thorough run as the dumped instance
-        "constants": {"quick": {"MaxRecs": 2, "NNames": 4}, "thorough": {"MaxRecs": 1, "NNames": 5}},
+        "constants": {"quick": {"MaxRecs": 2, "NNames": 4, "Shape": '"all"', "MaxPairs": 0}, "thorough": {"MaxRecs": 1, "NNames": 5, "Shape": '"all"', "MaxPairs": 0}},
         "always": ["Inv_Struct"], "properties": ["P_C10"],
     },
     # the converter world with its files (spec/System.tla)
@@ -87,7 +87,9 @@ PLAN = {
             ("Remap", [], {"MaxRecs": 1}),
             ("Derive", [], {"Ops": '{"chain", "sub", "remap_uri", "rewire"}', "MaxBase": 1, "BaseMode": '"all"', "Tier": '"thorough"', "MaxPairs": 1, "MaxFollow": 0}, {"thorough"}),
             ("System", [], {})],       # writing a file changes no converter; reading one changes none but the new one
-    "C11": [("Remap", ["Inv_C11"], {})],
+    "C11": [("Remap", ["Inv_C11"], {}),
+            # two fixed three-record converters x every map of <= 3 pairs over six names (a skipped pair next to an applicable one)
+            ("Remap", ["Inv_C11"], {"Shape": '"three"', "NNames": 6, "MaxPairs": 3, "MaxRecs": 3})],
 }
 
 
